@@ -1,3 +1,4 @@
+import Model.Distance.Deep
 import Model
 
 def handle (line : String) : String :=
@@ -13,6 +14,7 @@ def handle (line : String) : String :=
   | "PLE" :: rest => Path.leLine rest
   | "NDIST" :: rest => Dist.ndistLine rest
   | "TDIST" :: rest => Dist.tdistLine rest
+  | "DDIST" :: rest => Dist.ddistLine rest
   | "HASH" :: rest => Hash.hashLine rest
   | "HASHM" :: rest => Hash.hashmLine rest
   | "DIFF" :: rest => Diff.diffLine rest
